@@ -107,25 +107,21 @@ theorem C18_lookup_table (t : KV) (ht : Sorted t) (rows : List LRow) (hb : ∀ r
 
 /-! ## the composite loaders (`Encoder::load`, `Blueprint::load`, anchors: mccfr/blueprint.rs) -/
 
-theorem loadEncoder_step_none (fs : List Bytes) :
-    fs.foldl (fun acc f =>
-      match acc, loadLookup f with
-      | some m, some l => some (l.foldl (fun a p => insertKV p.1 p.2 a) m)
-      | _, _ => none) (none : Option KV) = none := by
+theorem encStep_none (f : Bytes) : encStep none f = none := rfl
+
+theorem encStep_fail (acc : Option KV) (f : Bytes) (h : loadLookup f = none) : encStep acc f = none := by
+  cases acc <;> simp [encStep, h]
+
+theorem foldl_encStep_none (fs : List Bytes) : fs.foldl encStep none = none := by
   induction fs with
   | nil => rfl
-  | cons f fs ih => simpa [List.foldl_cons] using ih
+  | cons f fs ih => simpa [List.foldl_cons, encStep_none] using ih
 
 /-- one street file that does not load makes `Encoder::load` fail, whatever the other files are -/
 theorem loadEncoder_none_of_part (pre post : List Bytes) (f : Bytes) (h : loadLookup f = none) :
     loadEncoder (pre ++ f :: post) = none := by
-  simp only [loadEncoder, List.foldl_append, List.foldl_cons, h]
-  have : ∀ acc : Option KV, (match acc, (none : Option KV) with
-      | some m, some l => some (l.foldl (fun a p => insertKV p.1 p.2 a) m)
-      | _, _ => none) = none := by
-    intro acc; cases acc <;> rfl
-  rw [this]
-  exact loadEncoder_step_none post
+  simp only [loadEncoder, List.foldl_append, List.foldl_cons, encStep_fail _ f h]
+  exact foldl_encStep_none post
 
 /-- **C18, `Encoder::load`**: with ANY street's lookup file cut at ANY byte (the other files being
     whatever they are), the composite load fails — a street is never silently missing. -/
